@@ -4,6 +4,7 @@ import (
 	"encoding/json"
 	"fmt"
 	"os"
+	"path/filepath"
 	"regexp"
 	"sort"
 	"strings"
@@ -40,6 +41,7 @@ func budgetEnd() (time.Time, bool) {
 var exoticStarted bool
 
 func init() {
+	classify = crashSig
 	// reserve the tail of the budget for TestExotic
 	reserve = func() bool {
 		end, ok := budgetEnd()
@@ -51,14 +53,26 @@ func init() {
 	}
 }
 
-// knownSigTable lists the signatures of the recorded findings whose input
-// class the generator can switch off.
-var knownSigTable = []string{
-	"nilness-ordered-comparison-with-typeparam-zero",
-	"sa5009-indexed-verb-wrong-type",
-	"astutil-equal-func-type",
+// sigTable lists the signatures of the recorded findings whose input class the
+// generator can switch off. The first frequentSigs of them crash so often
+// (more than one package in five contains the shape) that they would mask each
+// other and everything else: at most one of them is switched on per case, by a
+// fixed rotation over shard and case number; each of the others is on in about
+// half of the cases.
+var sigTable = []string{
 	"st1020-parenthesised-receiver",
+	"nilness-ordered-comparison-with-typeparam-zero",
+	"astutil-equal-func-type",
+	"sa5009-indexed-verb-wrong-type",
+	"astutil-equal-field-tag",
+	"unify-max-depth-exceeded",
+	"copyexpr-indexlist-nil-index",
+	"redundant-type-partial-instantiation",
 }
+
+const frequentSigs = 4
+
+var exoticCaseNo int
 
 // include reports whether the generator produces the input class of the
 // recorded finding sig: always, unless the finding is listed as known (a fixed
@@ -102,6 +116,14 @@ func crashSig(msg string) string {
 		return "astutil-equal-func-type"
 	case strings.Contains(pm, "*ast.ParenExpr") && has("stylecheck/st1020"):
 		return "st1020-parenthesised-receiver"
+	case strings.Contains(pm, "nil pointer dereference") && top != "" && strings.Contains(top, "astutil.Equal"):
+		return "astutil-equal-field-tag"
+	case strings.Contains(pm, "unify: max depth exceeded"):
+		return "unify-max-depth-exceeded"
+	case strings.Contains(pm, "ast.Walk: unexpected node type <nil>"):
+		return "copyexpr-indexlist-nil-index"
+	case has("sharedcheck.RedundantTypeInDeclarationChecker") && strings.Contains(pm, "cannot infer"):
+		return "redundant-type-partial-instantiation"
 	}
 	if pm == "" {
 		// not a crash: compile/config problem or bad exit status
@@ -137,6 +159,36 @@ func (c *exoCase) toCase() *Case {
 	return out
 }
 
+// evaluateExotic is evaluate with the order of the two steps chosen by the
+// caller: with buildFirst it is evaluate; otherwise the module is linted first
+// and `go build` / `go test -run ^$` are consulted only when the linter fails,
+// to establish the precondition of the property before a failure is believed.
+// (A module that the linter accepts without a compile problem has been
+// type-checked by its loader; building it as well would only double the cost.)
+func evaluateExotic(c *Case, buildFirst bool) (msg string, ndiag int, infra string) {
+	if buildFirst {
+		return evaluate(c)
+	}
+	dir, err := os.MkdirTemp("", "c03x-")
+	if err != nil {
+		return "", 0, err.Error()
+	}
+	defer os.RemoveAll(dir)
+	for name, src := range c.Files {
+		p := filepath.Join(dir, name)
+		os.MkdirAll(filepath.Dir(p), 0o755)
+		os.WriteFile(p, []byte(src), 0o644)
+	}
+	msg, ndiag, infra = lint(dir, "./...")
+	if infra != "" || msg == "" {
+		return msg, ndiag, infra
+	}
+	if out := goBuild(dir, "./..."); out != "" {
+		return "", 0, "generated module rejected by go build:\n" + out
+	}
+	return msg, ndiag, ""
+}
+
 func (c *exoCase) nunits() int {
 	n := 0
 	for _, p := range c.pkgs {
@@ -151,7 +203,7 @@ func minimise(c *exoCase, sig string, maxEval int, stop func() bool) (*exoCase, 
 	evals := 0
 	still := func(cand *exoCase) bool {
 		evals++
-		msg, _, infra := evaluate(cand.toCase())
+		msg, _, infra := evaluateExotic(cand.toCase(), false)
 		return infra == "" && msg != "" && crashSig(msg) == sig
 	}
 	cur := c
@@ -253,10 +305,19 @@ func TestExotic(t *testing.T) {
 			ev.Count("exotic_cases_skipped_after_share", 1)
 			return
 		}
-		// each switchable input class of a recorded finding is on in about half of the cases
+		seenMu.Lock()
+		exoticCaseNo++
+		focus := (ev.Shard() + exoticCaseNo) % (frequentSigs + 1) // frequentSigs: none of them
+		seenMu.Unlock()
+		maskBits := rapid.Uint64().Draw(rt, "class_bits")
+		maskBits = (maskBits ^ maskBits>>17) * 0x9E3779B97F4A7C15
 		mask := map[string]bool{}
-		for _, s := range knownSigTable {
-			mask[s] = rapid.Bool().Draw(rt, "include_"+s)
+		for i, s := range sigTable {
+			if i < frequentSigs {
+				mask[s] = i == focus
+			} else {
+				mask[s] = maskBits>>(20+uint(i))&1 == 1
+			}
 		}
 		seenMu.Lock()
 		for s := range mask {
@@ -266,20 +327,34 @@ func TestExotic(t *testing.T) {
 		}
 		seenMu.Unlock()
 		inc := func(sig string) bool { return include(sig) && mask[sig] }
-		np := rapid.IntRange(2, 3).Draw(rt, "npkgs")
+		np := 2 + int(maskBits>>7&1)
 		c := &exoCase{}
-		withTest := rapid.IntRange(0, np).Draw(rt, "testpkg") // index of the package with a _test.go file (np: none)
+		t0 := time.Now()
+		withTest := int(maskBits >> 9 % uint64(np+1)) // index of the package with a _test.go file (np: none)
 		for i := 0; i < np; i++ {
-			cfg := exogen.Config{Include: inc, MinUnits: 8, MaxUnits: 40, Test: i == withTest}
+			cfg := exogen.Config{Include: inc, MinUnits: ev.EnvInt("C03_EXOTIC_MIN_UNITS", 40, 40), MaxUnits: ev.EnvInt("C03_EXOTIC_MAX_UNITS", 110, 110), Test: i == withTest}
 			c.pkgs = append(c.pkgs, exogen.Generate(rt, "p", cfg))
 			c.names = append(c.names, fmt.Sprintf("x%d", i))
 		}
 		cs := c.toCase()
 		js, _ := json.Marshal(cs)
+		ev.Count("exotic_ms_generate", int(time.Since(t0).Milliseconds()))
+		t0 = time.Now()
 		ev.Begin("TestExotic", "json", js)
-		msg, ndiag, infra := evaluate(cs)
+		// every third case is built before it is linted (that measures the rate of invalid cases);
+		// the others are built only when the linter complains
+		buildFirst := maskBits>>11%3 == 0
+		msg, ndiag, infra := evaluateExotic(cs, buildFirst)
+		ev.Count("exotic_ms_evaluate", int(time.Since(t0).Milliseconds()))
+		if buildFirst {
+			ev.Count("exotic_build_checked", 1)
+			ev.Count("exotic_ms_evaluate_with_build", int(time.Since(t0).Milliseconds()))
+		}
 		if infra != "" {
 			ev.Count("gen_invalid", 1)
+			if buildFirst {
+				ev.Count("exotic_build_checked_invalid", 1)
+			}
 			ev.Extra("exotic_last_invalid", trunc(infra, 1500))
 			rt.Skip(infra)
 		}
@@ -289,7 +364,7 @@ func TestExotic(t *testing.T) {
 				classSet[cl] = true
 			}
 			for s, n := range p.Excluded {
-				ev.Count("excluded_"+s, n)
+				ev.Count("class_off_"+s, n)
 			}
 			for f, n := range p.Dropped {
 				ev.Count("units_dropped_"+f, n)
